@@ -23,7 +23,7 @@ ASSUMPTIONS = ["known finding route-shadowing: valid Basic credentials whose tex
 
 
 def nontrivial(c):
-    if c.kind in ("authuser", "pathprobe"):
+    if c.kind in ("authuser", "pathprobe", "exact"):
         return True
     return c.fields[2] != "none"
 
